@@ -6,8 +6,16 @@
 //   V:b|h|s|d|q:<id>[:<et>[:<idx>]]    a64::Vec; et in -,b,h,s,d,b4,h2 ; idx = element index
 //   I:<int64>  U:<uint64>  F:<double>  immediates
 //   S:<shiftop>:<amount>               Imm(arm::Shift(op, amount)); shiftop = lsl,lsr,asr,ror,msl,uxtb..sxtx
-//   M:<baseid>:<mode o|pre|post>:<off> a64::Mem [x<baseid>, #off] (fixed / pre-index / post-index)
-//   MX:<baseid>:<w|x>:<idxid>:<shiftop|->:<amount>:<mode>   register index
+//   M:<baseid>:<mode o|pre|post>:<off>[:w] a64::Mem [x<baseid>, #off] (fixed / pre-index / post-index; `w`: W register as base)
+//   MX:<baseid>:<w|x>:<idxid>:<shiftop|->:<amount>:<mode>[:<off>]   register index (with <off>: index AND offset)
+//   MLX:<off>:<idxid>                  Mem(label, off) with an index register set
+// Every G / V / S / M / MX operand is built twice: with the raw constructors (make_r32, set_element_type, Mem(base, off) +
+// make_pre_index ...) and with the public builders of a64operand.h (x(id).w(), v(id).h4(), v(id).s(i), ptr_pre(), lsl(n) ...);
+// the record says how many twins differ (`bld`) and the emit() call gets the builder-made operand.
+// Options: --arm 1 arms the one-shot state (comment / options / extra register) before every call and reports what is left
+// after it (`os`); --handler throw installs a throwing error handler (`threw`); --probe 1 emits `add x1, x2, x3` after every
+// failed call and compares it with the architectural word (`probe`), then rewinds; --emitter builder pushes every case
+// through a fresh a64::Builder (probe + case) and finalizes it.
 //   ML:<off>                           Mem(label bound at the current position, off)
 //   MA:<disp>                          Mem(absolute address = pc + disp)
 //   L                                  label bound at the current position
@@ -16,6 +24,7 @@
 #include <asmjit/core.h>
 #include <asmjit/a64.h>
 #include <asmjit/arm/a64instdb_p.h>
+#include <string.h>
 #include "vcommon.h"
 #include <iostream>
 #include <sstream>
@@ -23,10 +32,13 @@
 
 using namespace asmjit;
 
+struct Thrown { Error err; };
+
 struct CountingHandler : public ErrorHandler {
   int calls = 0;
+  bool throwing = false;
   Error last = Error::kOk;
-  void handle_error(Error err, const char*, BaseEmitter*) override { calls++; last = err; }
+  void handle_error(Error err, const char*, BaseEmitter*) override { calls++; last = err; if (throwing) throw Thrown{err}; }
 };
 
 static std::vector<std::string> split(const std::string& s, char c) {
@@ -70,9 +82,68 @@ static a64::VecElementType et_of(const std::string& s) {
   return a64::VecElementType::kNone;
 }
 
+// -- twins through the public builders of a64operand.h ---------------------------------------------------------------
+static bool shift_builder(arm::ShiftOp sop, uint32_t n, arm::Shift* out) {
+  switch (sop) {
+    case arm::ShiftOp::kLSL: *out = a64::lsl(n); return true;
+    case arm::ShiftOp::kLSR: *out = a64::lsr(n); return true;
+    case arm::ShiftOp::kASR: *out = a64::asr(n); return true;
+    case arm::ShiftOp::kROR: *out = a64::ror(n); return true;
+    case arm::ShiftOp::kMSL: *out = a64::msl(n); return true;
+    case arm::ShiftOp::kUXTB: *out = a64::uxtb(n); return true;
+    case arm::ShiftOp::kUXTH: *out = a64::uxth(n); return true;
+    case arm::ShiftOp::kUXTW: *out = a64::uxtw(n); return true;
+    case arm::ShiftOp::kUXTX: *out = a64::uxtx(n); return true;
+    case arm::ShiftOp::kSXTB: *out = a64::sxtb(n); return true;
+    case arm::ShiftOp::kSXTH: *out = a64::sxth(n); return true;
+    case arm::ShiftOp::kSXTW: *out = a64::sxtw(n); return true;
+    case arm::ShiftOp::kSXTX: *out = a64::sxtx(n); return true;
+    default: return false;
+  }
+}
+
+// -> true when a builder exists for this (register view, element type[, index]) combination
+static bool vec_builder(char t, uint32_t rid, const std::string& et, bool has_idx, uint32_t idx, a64::Vec* out, const char** which) {
+  a64::Vec base = a64::v(rid);
+  if (has_idx) {
+    if (t != 'q') return false;
+    if (et == "b") { *out = base.b(idx); *which = "Vec::b(i)"; return true; }
+    if (et == "h") { *out = base.h(idx); *which = "Vec::h(i)"; return true; }
+    if (et == "s") { *out = base.s(idx); *which = "Vec::s(i)"; return true; }
+    if (et == "d") { *out = base.d(idx); *which = "Vec::d(i)"; return true; }
+    if (et == "h2") { *out = base.h2(idx); *which = "Vec::h2(i)"; return true; }
+    if (et == "b4") { *out = base.b4(idx); *which = "Vec::b4(i)"; return true; }
+    return false;
+  }
+  if (et.empty() || et == "-") {
+    switch (t) {
+      case 'b': *out = a64::d(rid).b(); *which = "Vec::b()"; return true;
+      case 'h': *out = a64::q(rid).h(); *which = "Vec::h()"; return true;
+      case 's': *out = a64::b(rid).s(); *which = "Vec::s()"; return true;
+      case 'd': *out = a64::s(rid).d(); *which = "Vec::d()"; return true;
+      default: *out = a64::h(rid).q(); *which = "Vec::q()"; return true;
+    }
+  }
+  if (t == 'd' && et == "b") { *out = base.b8(); *which = "Vec::b8()"; return true; }
+  if (t == 'q' && et == "b") { *out = base.b16(); *which = "Vec::b16()"; return true; }
+  if (t == 's' && et == "h") { *out = base.h2(); *which = "Vec::h2()"; return true; }
+  if (t == 'd' && et == "h") { *out = base.h4(); *which = "Vec::h4()"; return true; }
+  if (t == 'q' && et == "h") { *out = base.h8(); *which = "Vec::h8()"; return true; }
+  if (t == 'd' && et == "s") { *out = base.s2(); *which = "Vec::s2()"; return true; }
+  if (t == 'q' && et == "s") { *out = base.s4(); *which = "Vec::s4()"; return true; }
+  if (t == 'q' && et == "d") { *out = base.d2(); *which = "Vec::d2()"; return true; }
+  return false;
+}
+
+static const uint32_t kProbeWord = 0x8B030041u;   // add x1, x2, x3
+
 int main(int argc, char** argv) {
   Args args(argc, argv);
   std::string in = args.str("cases", "-");
+  const bool arm_state = args.u64("arm", 0) != 0;
+  const bool throwing = args.str("handler", "return") == "throw";
+  const bool probe_after_failure = args.u64("probe", 0) != 0;
+  const bool via_builder = args.str("emitter", "assembler") == "builder";
 
   // name -> ids (AArch64 uses one mnemonic for a GP and a SIMD id)
   std::map<std::string, std::vector<uint32_t>> by_name;
@@ -82,6 +153,16 @@ int main(int argc, char** argv) {
     by_name[std::string(s.data(), s.size())].push_back(id);
   }
 
+  if (args.has("names") && args.u64("names", 1) == 2) {
+    // one line per name: <name> <id>:<encoding class>... api=<api-id>
+    for (auto& kv : by_name) {
+      printf("%s", kv.first.c_str());
+      for (uint32_t x : kv.second) printf(" %u:%u", x, unsigned(a64::InstDB::_inst_info_table[x]._encoding));
+      printf(" api=%u\n", InstAPI::string_to_inst_id(Arch::kAArch64, kv.first.c_str(), kv.first.size()));
+    }
+    printf("#count %u\n", unsigned(a64::Inst::_kIdCount));
+    return 0;
+  }
   if (args.has("names")) {
     // one line per name: <name> <id>... <api-id>
     for (auto& kv : by_name) {
@@ -93,6 +174,7 @@ int main(int argc, char** argv) {
   }
 
   Env E;
+  E.eh.throwing = throwing;
   E.reinit();
 
   std::istream* is = &std::cin;
@@ -109,6 +191,13 @@ int main(int argc, char** argv) {
     a64::Assembler& a = E.a;
 
     Operand ops[6];
+    int bld_n = 0, bld_bad = 0;
+    std::string bld_which;
+    auto twin = [&](int i, const Operand_& built, const char* which) {
+      bld_n++;
+      if (memcmp(&ops[i], &built, sizeof(Operand_)) != 0) { bld_bad++; if (bld_which.empty()) bld_which = which; }
+      ops[i] = built;
+    };
     bool bad = false, has_vec = false;
     Label self_label;
     uint64_t pc = kBase + a.offset();
@@ -119,6 +208,8 @@ int main(int argc, char** argv) {
       if (k == "G" && p.size() >= 3) {
         uint32_t rid = (uint32_t)strtoul(p[2].c_str(), nullptr, 0);
         ops[i] = p[1] == "w" ? a64::Gp::make_r32(rid) : a64::Gp::make_r64(rid);
+        if (p[1] == "w") twin(i, (E.n & 1) ? a64::w(rid) : a64::x(rid).w(), (E.n & 1) ? "a64::w(id)" : "Gp::w()");
+        else twin(i, (E.n & 1) ? a64::x(rid) : a64::w(rid).x(), (E.n & 1) ? "a64::x(id)" : "Gp::x()");
       }
       else if (k == "V" && p.size() >= 3) {
         has_vec = true;
@@ -130,6 +221,12 @@ int main(int argc, char** argv) {
         if (p.size() >= 4 && p[3] != "-") v.set_element_type(et_of(p[3]));
         if (p.size() >= 5 && p[4] != "-") v.set_element_index((uint32_t)strtoul(p[4].c_str(), nullptr, 0));
         ops[i] = v;
+        {
+          a64::Vec b; const char* which = "";
+          bool has_idx = p.size() >= 5 && p[4] != "-";
+          uint32_t idx = has_idx ? (uint32_t)strtoul(p[4].c_str(), nullptr, 0) : 0;
+          if (vec_builder(t, rid, p.size() >= 4 ? p[3] : std::string(), has_idx, idx, &b, &which)) twin(i, b, which);
+        }
       }
       else if (k == "I" && p.size() >= 2) ops[i] = Imm((int64_t)strtoll(p[1].c_str(), nullptr, 0));
       else if (k == "U" && p.size() >= 2) ops[i] = Imm((uint64_t)strtoull(p[1].c_str(), nullptr, 0));
@@ -137,15 +234,25 @@ int main(int argc, char** argv) {
       else if (k == "S" && p.size() >= 3) {
         arm::ShiftOp sop;
         if (!shift_op_of(p[1], &sop)) bad = true;
-        else ops[i] = Imm(arm::Shift(sop, (uint32_t)strtoul(p[2].c_str(), nullptr, 0)));
+        else {
+          uint32_t n = (uint32_t)strtoul(p[2].c_str(), nullptr, 0);
+          ops[i] = Imm(arm::Shift(sop, n));
+          arm::Shift sb;
+          if (shift_builder(sop, n, &sb)) twin(i, Imm(sb), "a64::<shift>(n)");
+        }
       }
       else if (k == "M" && p.size() >= 4) {
         uint32_t bid = (uint32_t)strtoul(p[1].c_str(), nullptr, 0);
         int32_t off = (int32_t)strtoll(p[3].c_str(), nullptr, 0);
-        a64::Mem m(a64::Gp::make_r64(bid), off);
+        bool wbase = p.size() >= 5 && p[4] == "w";
+        a64::Gp breg = wbase ? a64::Gp::make_r32(bid) : a64::Gp::make_r64(bid);
+        a64::Mem m(breg, off);
         if (p[2] == "pre") m.make_pre_index();
         else if (p[2] == "post") m.make_post_index();
         ops[i] = m;
+        if (p[2] == "pre") twin(i, (E.n & 1) ? a64::ptr_pre(breg, off) : a64::ptr(breg).pre(off), (E.n & 1) ? "a64::ptr_pre(base, off)" : "Mem::pre(off)");
+        else if (p[2] == "post") twin(i, (E.n & 1) ? a64::ptr_post(breg, off) : a64::ptr(breg).post(off), (E.n & 1) ? "a64::ptr_post(base, off)" : "Mem::post(off)");
+        else twin(i, a64::ptr(breg, off), "a64::ptr(base, off)");
       }
       else if (k == "MX" && p.size() >= 7) {
         uint32_t bid = (uint32_t)strtoul(p[1].c_str(), nullptr, 0);
@@ -160,6 +267,24 @@ int main(int argc, char** argv) {
         }
         if (p[6] == "pre") m.make_pre_index();
         else if (p[6] == "post") m.make_post_index();
+        if (p.size() >= 8) m.set_offset((int64_t)strtoll(p[7].c_str(), nullptr, 0));
+        ops[i] = m;
+        if (!bad && p.size() < 8) {
+          a64::Gp breg = a64::Gp::make_r64(bid);
+          arm::ShiftOp sop; arm::Shift sb;
+          if (p[4] == "-") {
+            if (p[6] == "pre") twin(i, a64::ptr_pre(breg, idx), "a64::ptr_pre(base, index)");
+            else if (p[6] == "post") twin(i, a64::ptr_post(breg, idx), "a64::ptr_post(base, index)");
+            else twin(i, a64::ptr(breg, idx), "a64::ptr(base, index)");
+          }
+          else if (p[6] == "o" && shift_op_of(p[4], &sop) && shift_builder(sop, (uint32_t)strtoul(p[5].c_str(), nullptr, 0), &sb))
+            twin(i, a64::ptr(breg, idx, sb), "a64::ptr(base, index, shift)");
+        }
+      }
+      else if (k == "MLX" && p.size() >= 3) {
+        if (!self_label.is_valid()) { self_label = a.new_label(); a.bind(self_label); }
+        a64::Mem m(self_label, (int32_t)strtoll(p[1].c_str(), nullptr, 0));
+        m.set_index(a64::Gp::make_r64((uint32_t)strtoul(p[2].c_str(), nullptr, 0)));
         ops[i] = m;
       }
       else if (k == "ML" && p.size() >= 2) {
@@ -204,27 +329,81 @@ int main(int argc, char** argv) {
     uint32_t encoding = real_id < a64::Inst::_kIdCount ? a64::InstDB::_inst_info_table[real_id]._encoding : 0;
     if (cc) inst_id = BaseInst::compose_arm_inst_id(inst_id, arm::CondCode(cc));
 
+    if (via_builder) {
+      // a fresh Builder: probe + case, then finalize. A refused case must make emit() or finalize() fail, the handler must
+      // be called exactly once, and the text section must hold the probe only.
+      CodeHolder code;
+      CountingHandler eh;
+      code.init(Environment(Arch::kAArch64), kBase);
+      code.set_error_handler(&eh);
+      a64::Builder cb(&code);
+      Error e0 = cb.add(a64::x1, a64::x2, a64::x3);
+      Error e1 = Error::kOk, e2 = Error::kOk;
+      // (labels of the case line belong to the shared holder: such lines are not sent here)
+      if (bad) e1 = Error::kInvalidArgument;
+      else if (real_id == 0) e1 = Error::kInvalidInstruction;
+      else e1 = cb.emit_op_array(inst_id, ops, (size_t)nops);
+      int h_emit = eh.calls;
+      e2 = cb.finalize();
+      Section* text = code.text_section();
+      size_t sz = text->buffer_size();
+      uint32_t w0 = 0;
+      if (sz >= 4) memcpy(&w0, text->data(), 4);
+      char head[256];
+      snprintf(head, sizeof head, "{\"id\":%s,\"err\":%u,\"ferr\":%u,\"h\":%d,\"hemit\":%d,\"inst\":%u,\"enc\":%u,\"parse\":%d,\"probe\":%d,\"size\":%zu,\"e0\":%u}\n",
+               id.c_str(), unsigned(e1), unsigned(e2), eh.calls, h_emit, real_id, encoding, int(bad), int(sz >= 4 && w0 == kProbeWord ? 0 : 1), sz, unsigned(e0));
+      out += head;
+      if (out.size() > (1 << 20)) { fwrite(out.data(), 1, out.size(), stdout); out.clear(); }
+      continue;
+    }
+
+    if (arm_state) {
+      a.set_inline_comment("vc");
+      if (E.n % 3 == 1) a.add_inst_options(InstOptions::kUnfollow);
+      if (E.n % 3 == 2) a.set_extra_reg(a64::x5);
+    }
     size_t off0 = a.offset();
     size_t nl0 = E.code.label_count();
     size_t fix0 = E.code.unresolved_fixup_count();
     size_t rel0 = E.code.reloc_entries().size();
     E.eh.calls = 0; E.eh.last = Error::kOk;
     Error err = Error::kOk;
+    int threw = 0;
     if (bad) err = Error::kInvalidArgument;
     else if (real_id == 0) err = Error::kInvalidInstruction;
-    else err = a.emit_op_array(inst_id, ops, (size_t)nops);
+    else {
+      try { err = a.emit_op_array(inst_id, ops, (size_t)nops); }
+      catch (const Thrown& t) { threw = 1; err = t.err; }
+    }
     size_t off1 = a.offset();
+    int oneshot = -1;
+    if (arm_state && !bad && real_id != 0) {
+      oneshot = (a.inst_options() != InstOptions::kNone ? 1 : 0) | (a.has_extra_reg() ? 2 : 0) | (a.inline_comment() != nullptr ? 4 : 0);
+      a.reset_inst_options(); a.reset_extra_reg(); a.reset_inline_comment();
+    }
+    size_t dl = E.code.label_count() - nl0, df = E.code.unresolved_fixup_count() - fix0, dr = E.code.reloc_entries().size() - rel0;
+    int probe = -1;
+    if (probe_after_failure && err != Error::kOk && !bad && real_id != 0) {
+      // the emitter must produce exactly what a fresh one would
+      int hc = E.eh.calls;
+      size_t po = a.offset();
+      Error pe = Error::kOk;
+      try { pe = a.add(a64::x1, a64::x2, a64::x3); } catch (const Thrown& t) { pe = t.err; }
+      uint32_t w = 0;
+      if (a.offset() == po + 4) memcpy(&w, a.buffer_data() + po, 4);
+      probe = (pe == Error::kOk && po == off1 && a.offset() == po + 4 && w == kProbeWord && E.eh.calls == hc) ? 0 : 1;
+      a.set_offset(po);
+    }
 
-    char head[256];
-    snprintf(head, sizeof head, "{\"id\":%s,\"err\":%u,\"h\":%d,\"inst\":%u,\"enc\":%u,\"miss\":%d,\"parse\":%d,\"df\":%zu,\"dr\":%zu,\"bytes\":\"",
-             id.c_str(), unsigned(err), E.eh.calls, real_id, encoding, lookup_miss, int(bad),
-             E.code.unresolved_fixup_count() - fix0, E.code.reloc_entries().size() - rel0);
+    char head[320];
+    snprintf(head, sizeof head, "{\"id\":%s,\"err\":%u,\"h\":%d,\"inst\":%u,\"enc\":%u,\"miss\":%d,\"parse\":%d,\"df\":%zu,\"dr\":%zu,\"dl\":%zu,\"os\":%d,\"threw\":%d,\"probe\":%d,\"bld\":%d,\"bldn\":%d,\"bldw\":\"%s\",\"bytes\":\"",
+             id.c_str(), unsigned(err), E.eh.calls, real_id, encoding, lookup_miss, int(bad), df, dr, dl, oneshot, threw, probe,
+             bld_bad, bld_n, bld_which.c_str());
     out += head;
     if (off1 > off0) out += hexstr(a.buffer_data() + off0, off1 - off0);
     out += "\"";
     if (off1 < off0) out += ",\"shrunk\":1";
     out += "}\n";
-    (void)nl0;
     if (out.size() > (1 << 20)) { fwrite(out.data(), 1, out.size(), stdout); out.clear(); }
   }
   fwrite(out.data(), 1, out.size(), stdout);
